@@ -17,7 +17,7 @@ def is_failed_load(op, o):
     return op[0] in (31, 32) and o[0][0] == 999
 
 
-def spec_check(kind, rows, lf, ops, obs, impl, impl_kwargs=None):
+def spec_check(kind, rows, lf, ops, obs, impl, impl_kwargs=None, check_fresh=True):
     out = []
     n = len(ops)
     for i, (op, o) in enumerate(zip(ops, obs)):
@@ -51,7 +51,7 @@ def spec_check(kind, rows, lf, ops, obs, impl, impl_kwargs=None):
                 out.append((i, "after a failed load_policy the enforcer behaves differently from one that never attempted it"))
                 return out
     # successful reload: queries right after it equal a fresh enforcer's
-    i = 0
+    i = 0 if check_fresh else n
     while i < n:
         if ops[i][0] == 31 and obs[i][0][0] == 0:
             j = i + 1
@@ -78,15 +78,17 @@ def spec_check_async(kind, rows, lf, ops, obs, impl):
 spec_check_async.case_extra = dict(enforcer="AsyncEnforcer")
 
 
-def make_case(rng, kind, mode):
+def make_case(rng, kind, mode, weights=None, auto_build_off=False, keep=None):
     uni = mgmt.Universe(kind)
-    g = mgmt.Gen(rng, kind, W)
+    g = mgmt.Gen(rng, kind, weights or W)
     rows = g.rows(rng.randint(1, 8))
     probe = mgmt.probe_ops(kind, uni)
     ops = []
     # memory state that differs from the adapter rows: built with auto-save off
     ops.append((35, False))
     ops += g.history(rng.randint(0, 8), final_probe=False)
+    if auto_build_off:
+        ops.append((36, False))          # from here on neither a reload nor a management call touches the role links
     ops += probe
     if mode == "adapter":
         ks = list(range(0, len(rows) + 1))
@@ -114,7 +116,93 @@ def make_case(rng, kind, mode):
     elif mode == "short_p" and kind.prio:
         rows.insert(rng.randrange(len(rows) + 1), (0, []))   # no priority column at all -> IndexError in sorted
         rows.append((0, uni.p_rule(rng)))
+    if keep is not None:
+        ops = [o for o in ops if keep(o)]
+    if (weights or {}).get("long_g"):
+        # never two grouping rules sharing their declared-arity prefix (known finding C04/overlong-rules-share-a-link)
+        ops = mgmt.drop_prefix_aliases(kind, rows, ops)
     return (rows, False, ops)
+
+
+# ----------------------------------------------------------------------------- strata added after the third seeding wave
+def spec_check_flag_off(kind, rows, lf, ops, obs, impl):
+    # auto-build is switched off inside these histories: "a successful reload replaces policy and role links TOGETHER" is
+    # then not demanded (the links are the user's business); the failed-reload clauses and the twin run are
+    return spec_check(kind, rows, lf, ops, obs, impl, check_fresh=False)
+
+
+def spec_check_flag_off_async(kind, rows, lf, ops, obs, impl):
+    from ..async_facade import AsyncFacade
+    return spec_check(kind, rows, lf, ops, obs, impl, impl_kwargs=dict(enforcer_cls=AsyncFacade), check_fresh=False)
+
+
+spec_check_flag_off.case_extra = dict(auto_build="switched off inside the history")
+spec_check_flag_off_async.case_extra = dict(enforcer="AsyncEnforcer", auto_build="switched off inside the history")
+
+_FAST = {}
+
+
+def fast_kwargs(order):
+    import casbin
+    from casbin.model import FastModel
+    return dict(enforcer_cls=casbin.FastEnforcer, enforcer_kwargs=dict(cache_key_order=list(order)),
+                model_factory=lambda: FastModel(list(order)), sort_p=True)
+
+
+def spec_check_fast(order):
+    order = tuple(order)
+    if order not in _FAST:
+        def sc(kind, rows, lf, ops, obs, impl):
+            return spec_check(kind, rows, lf, ops, obs, impl, impl_kwargs=fast_kwargs(order))
+        sc.case_extra = dict(enforcer="FastEnforcer", cache_key_order=list(order))
+        _FAST[order] = sc
+    return _FAST[order]
+
+
+def fast_keep(op):
+    # FastEnforcer keeps the permission rules in an index whose iteration order is unspecified: only calls whose result
+    # does not depend on that order stay in the history (management calls, decisions, has_policy, role queries)
+    return op[0] < 50 or op[0] in (50, 54, 55, 56, 59) or (op[0] in (52, 53) and op[1] != 0)
+
+
+W_LONG = dict(W, long_g=0.35, g_add=8, g_add_many=4)
+
+
+def run_added(chk, n):
+    from ..async_facade import AsyncFacade
+    rng = chk.rng
+    st = chk.extra.setdefault("strata", {})
+    # (a) FastEnforcer (its FastModel has its own clear_policy, the first step of every reload) on role models
+    for kn in ("rbac", "rbac_deny"):
+        kind = mgmt.KINDS[kn]
+        for order in ([1, 2], [2, 1]):
+            cases = [make_case(rng, kind, ["adapter", "short_g", "ok"][i % 3], keep=fast_keep) for i in range(max(12, n // 6))]
+            mgmt.run_cases(chk, kind, cases, spec_check_fast(order), label=f"fault-fast-{kn}-key{order[0]}{order[1]}",
+                           impl_kwargs=fast_kwargs(order), compare_model=False,
+                           key_fn=lambda k, r, o, _o=tuple(order): ("fast", _o, k.name, repr(r), repr([x for x in o if x[0] < 50])))
+            st[f"fault_fast_{kn}"] = st.get(f"fault_fast_{kn}", 0) + len(cases)
+    # (b) auto_build_role_links switched off before the reload (links in step with the policy at that moment)
+    for is_async in (False, True):
+        for kn in ("rbac", "dom"):
+            kind = mgmt.KINDS[kn]
+            cases = [make_case(rng, kind, ["short_g", "adapter", "ok"][i % 3], auto_build_off=True)
+                     for i in range(max(12, n // (5 if is_async else 3)))]
+            mgmt.run_cases(chk, kind, cases, spec_check_flag_off_async if is_async else spec_check_flag_off,
+                           label=f"fault-auto-build-off-{'async-' if is_async else ''}{kn}",
+                           impl_kwargs=dict(enforcer_cls=AsyncFacade) if is_async else None,
+                           key_fn=lambda k, r, o, _a=is_async: ("flag-off", _a, k.name, repr(r), repr([x for x in o if x[0] < 50])))
+            st[f"fault_auto_build_off_{'async_' if is_async else ''}{kn}"] = len(cases)
+    # (c) the kept policy holds grouping rules with MORE fields than the role definition declares
+    for is_async in (False, True):
+        for kn in (("rbac", "dom", "rbac_res") if not is_async else ("rbac",)):
+            kind = mgmt.KINDS[kn]
+            cases = [make_case(rng, kind, ["short_g", "short_g", "adapter"][i % 3], weights=W_LONG)
+                     for i in range(max(12, n // (5 if is_async else 3)))]
+            mgmt.run_cases(chk, kind, cases, spec_check_async if is_async else spec_check,
+                           label=f"fault-overlong-g-{'async-' if is_async else ''}{kn}",
+                           impl_kwargs=dict(enforcer_cls=AsyncFacade) if is_async else None,
+                           key_fn=lambda k, r, o, _a=is_async: ("overlong", _a, k.name, repr(r), repr([x for x in o if x[0] < 50])))
+            st[f"fault_overlong_g_{'async_' if is_async else ''}{kn}"] = len(cases)
 
 
 def run(chk, n):
@@ -179,24 +267,40 @@ def main():
                 "non-numeric / missing priority (ordering fails); memory differs from the adapter rows (built with auto-save "
                 "off), probes before and after each failed reload, further management calls afterwards, twin run without the "
                 "failed reloads; RBAC, domain, resource-role, priority and ACL models; the same fault strata on the AsyncEnforcer "
-                "(every call awaited) for RBAC, domain and priority-RBAC models; distinct by (kind, rows, mutating calls)")
-    chk.assumptions = ["role links were in sync with the policy before the failed call (C04's invariant; auto-build on)",
+                "(every call awaited) for RBAC, domain and priority-RBAC models; distinct by (kind, rows, mutating calls)"
+                "; the same fault modes (and plain successful reloads) on a FastEnforcer with a role model (2 cache-key orders), with "
+                "auto_build_role_links switched off just before the reload (sync and async; links in step at that moment), and with "
+                "grouping rules longer than the role definition in the kept policy (sync and async)")
+    chk.assumptions = ["role links were in sync with the policy before the failed call (C04's invariant; auto-build on, or switched "
+                       "off only after the last change - then 'a successful reload replaces the links' is not demanded)",
                        "failure = an exception raised by the adapter or by the model code; process crashes are out of scope"]
     chk.trusted = ["hand-written models coq/theories/{Policy,RoleGraph,Mgmt}.v tied by the differential history correspondence"]
     chk.build(oracle_name="Mgmt")
     if chk.replay_file:
         import json
         c = (json.load(open(chk.replay_file)).get("case") or {})
+        if c.get("enforcer") == "FastEnforcer":
+            chk.oracle = None      # implementation-level stratum (the index order of FastPolicy is not the model's)
+            return mgmt.replay_case(chk, spec_check_fast(c["cache_key_order"]), impl_kwargs=fast_kwargs(c["cache_key_order"]))
+        if c.get("auto_build"):
+            from ..async_facade import AsyncFacade
+            if c.get("enforcer") == "AsyncEnforcer":
+                return mgmt.replay_case(chk, spec_check_flag_off_async, impl_kwargs=dict(enforcer_cls=AsyncFacade))
+            return mgmt.replay_case(chk, spec_check_flag_off)
         if c.get("enforcer") == "AsyncEnforcer":
             from ..async_facade import AsyncFacade
             return mgmt.replay_case(chk, spec_check_async, impl_kwargs=dict(enforcer_cls=AsyncFacade))
         return mgmt.replay_case(chk, spec_check)
     if chk.tier == "thorough":
         run(chk, 1200)
+        run_added(chk, 1200)
     else:
         run(chk, 120)
+        run_added(chk, 120)
         if (chk.broken() or chk.anchor_changed) and not chk.spec_failures:
             run(chk, 600)
+            if not chk.spec_failures:
+                run_added(chk, 600)
     chk.finish()
 
 
